@@ -449,6 +449,38 @@ def keyset_roundtrip(ctx, rng):
                 ctx.violation("keyset-roundtrip-privateness", f"private={private}: re-imported key is_private={k2.is_private}", case)
 
 
+def keyset_document_without_kids(ctx, rng):
+    """import_key_set of a JWKS whose entries have no kid member: every key is kept and gets its thumbprint as kid"""
+    j = J.load()
+    ctx.ev()
+    n = rng.randrange(1, 7)
+    jwks = [{k: v for k, v in x.items() if k != "kid"} for x in make_set(rng, [], size=n)]
+    with_kid = rng.sample(range(n), rng.randrange(0, n))  # some entries may carry one
+    doc = {"keys": [dict(x, kid=f"given-{i}") if i in with_kid else dict(x) for i, x in enumerate(jwks)]}
+    for private in (True, False):
+        d = copy.deepcopy(doc) if private else {"keys": [gen.public_jwk(x) if x["kty"] != "oct" else dict(x) for x in doc["keys"]]}
+        o = call(j.KeySet.import_key_set, copy.deepcopy(d))
+        ctx.count("keyset_documents")
+        case = {"document": d}
+        ctx.nontrivial(("doc", private, [x.get("kid") for x in d["keys"]], [x.get("x", x.get("n", x.get("k")))[:12] for x in d["keys"]]))
+        if not o.ok:
+            ctx.violation(f"keyset-import-fails:{o.key}", f"import_key_set of a well-formed JWKS raised {o.exc!r}", case)
+            continue
+        ks = o.value
+        if len(ks.keys) != len(d["keys"]):
+            ctx.violation("keyset-import-loses-key", f"import_key_set kept {len(ks.keys)} of {len(d['keys'])} keys (entries without kid: {sum(1 for x in d['keys'] if 'kid' not in x)})", case)
+            continue
+        for x, k2 in zip(d["keys"], ks.keys):
+            want_kid = x.get("kid") or RefKey.from_jwk(x).thumbprint()
+            if k2.kid != want_kid:
+                ctx.violation("keyset-import-kid", f"imported key has kid {k2.kid!r}, expected {want_kid!r}", case)
+            if not K.same_material(K.numbers_of_native(k2.raw_value), K.numbers_of_jwk(x), private and x["kty"] != "oct"):
+                ctx.violation("keyset-roundtrip-alters-key", "imported key holds other material than the document entry", case)
+        out = call(ks.as_dict, private=False)
+        if out.ok and len(out.value["keys"]) != len(d["keys"]):
+            ctx.violation("keyset-export-loses-key", f"{len(out.value['keys'])} of {len(d['keys'])} keys exported", case)
+
+
 def run_shard(ctx):
     J.load()
     J.register_drafts()
@@ -464,6 +496,8 @@ def run_shard(ctx):
             jwe_case(mon, rng)
             if i % 4 == 0:
                 keyset_roundtrip(ctx, rng)
+            if i % 3 == 0:
+                keyset_document_without_kids(ctx, rng)
     finally:
         mon.close()
 
